@@ -160,8 +160,21 @@ def run(ctx):
     ctx.saw(b)
     an = prog.an(b)
     preds = [blk for blk in b.blocks if is_dyn_call(blk.term) and not blk.cleanup]
+    # the predicate must be judged exactly once per idle object: one call site, inside the per-element loop, and the
+    # predicate is not handed to any other code (e.g. a pre-scan with Iterator::all re-invokes a stateful FnMut)
+    region = [prog.bodies[p_] for p_ in prog.region([b.path]) if p_ != b.path and p_.startswith(b.path)]
+    extra = [(rb.name, blk.term.line) for rb in region for blk in rb.blocks if is_dyn_call(blk.term) and not blk.cleanup]
+    escapes = []
+    for blk in b.blocks:
+        t_ = blk.term
+        if t_.kind == 'call' and not blk.cleanup and not is_dyn_call(t_):
+            for a in t_.args:
+                if a.kind != 'const' and any(s[0] == 'arg' and s[1] == 'predicate' for s in sources(an, a)) and not any(n_ == 'std::mem::drop' for n_ in t_.callee_names()):
+                    escapes.append((sorted(t_.callee_names())[0], t_.line))
+    ctx.ob('R09.1', 'the predicate is invoked at exactly one site, once per idle object', len(preds) == 1 and not extra and not escapes, ctx.where(b),
+           'predicate call sites in retain: %d, in its closures: %s, passed on to: %s' % (len(preds), extra, escapes), construct='retain:predicate-sites')
     if len(preds) != 1:
-        ctx.undecide('R09.1', 'retain: expected one predicate call, found %d' % len(preds))
+        pass
     else:
         pc = preds[0]
         sw = b.blocks[pc.term.target]
